@@ -809,7 +809,7 @@ func (f *frame) enterLoop(b *ssa.BasicBlock, li *loopInfo, phis []*ssa.Phi, in [
 			continue // auto invariants hold on entry by construction (checked below anyway)
 		}
 		t := f.evalLoopInv(iv, st, st)
-		e.addOb("inv-entry", fmt.Sprintf("loop%d:%s", li.ord, iv.text), iv.tags, f.fnPos(), st.cond, t)
+		e.addOb("inv-entry", fmt.Sprintf("loop%d:%s", li.ord, iv.text), f.invTags(iv.tags), f.fnPos(), st.cond, t)
 	}
 	// 3. probe: which heaps does one iteration modify?
 	changed := f.probeLoop(b, li, phis, st)
@@ -919,14 +919,14 @@ func (f *frame) analyseWrites(wlogStart int, nfreshAtStart int, changedSet map[s
 			f.npBump = true
 			continue
 		}
-		if !isFreshIdx(wr.idx, nfreshAtStart) {
+		if !e.freshIdx(wr.idx, nfreshAtStart) {
 			f.explicitW[wr.name] = true
 			notFresh[wr.name] = true
 			if wr.idx != "?" {
 				f.nonFreshIdx[wr.name] = append(f.nonFreshIdx[wr.name], wr.idx)
 			}
 		}
-		if !isFreshIdx(wr.idx, 0) {
+		if !e.freshIdx(wr.idx, 0) {
 			f.notAlloc[wr.name] = true
 			if wr.idx == "?" {
 				f.badIdx[wr.name] = true
@@ -952,6 +952,25 @@ func changedClass(changed []string, c int) bool {
 }
 
 var freshIdxRe = regexp.MustCompile(`^(?:a!(\d+)|\((?:sub_\S+|fa_\S+|elemref|ea) a!(\d+)(?: [^()]*)?\))$`)
+
+var freshResRe = regexp.MustCompile(`^(?:((?:ret|iret)!(\d+))|\((?:sub_\S+|fa_\S+|elemref|ea) ((?:ret|iret)!(\d+))(?: [^()]*)?\))$`)
+
+// freshIdx: like isFreshIdx, and also the results of calls whose contracts declare them fresh.
+func (e *Enc) freshIdx(idx string, after int) bool {
+	if isFreshIdx(idx, after) {
+		return true
+	}
+	m := freshResRe.FindStringSubmatch(idx)
+	if m == nil {
+		return false
+	}
+	name, num := m[1], m[2]
+	if name == "" {
+		name, num = m[3], m[4]
+	}
+	n, err := strconv.Atoi(num)
+	return err == nil && n > after && e.freshRes[name]
+}
 
 func isFreshIdx(idx string, after int) bool {
 	m := freshIdxRe.FindStringSubmatch(idx)
@@ -1564,9 +1583,25 @@ func (f *frame) checkBackEdge(from, to *ssa.BasicBlock, cond string, st *State) 
 			continue // inductive by construction
 		}
 		t = f.evalLoopInv(iv, s2, s2)
-		f.e.addOb("inv-step", fmt.Sprintf("loop%d:%s", li.ord, iv.text), iv.tags, f.fnPos(), cond, t)
+		f.e.addOb("inv-step", fmt.Sprintf("loop%d:%s", li.ord, iv.text), f.invTags(iv.tags), f.fnPos(), cond, t)
 	}
 	for p, v := range saved {
 		f.vals[p] = v
 	}
+}
+
+// invTags: a loop invariant is assumed at the loop head, so its entry/step obligations must be checked by some check
+// of the same root. An invariant of an INLINED helper tagged only with properties the root is not registered for would
+// be assumed but never checked: its obligations then count for every property of the root (untagged).
+func (f *frame) invTags(tags []string) []string {
+	if f == f.root || len(tags) == 0 || f.root == nil || f.root.ct == nil {
+		return tags
+	}
+	props := contractProps(f.root.ct)
+	for _, t := range tags {
+		if props[t] {
+			return tags
+		}
+	}
+	return nil
 }
